@@ -10,7 +10,9 @@
        forall l : list action, exists f0, forall fuel, f0 <= fuel -> holds (settle fuel (run net0 l)) = true.
    It is NOT proved in this generality.  What is PROVED is the single-break family, for every n and every
    k <= n (induction; unbounded), in each direction separately: C07_single_break (A sends),
-   C07_single_break_B_to_A (B sends).  Before the D12 repair of _process_resend (journal rewind /
+   C07_single_break_B_to_A (B sends); and C07_repeated_breaks: the A -> B family followed by ANY NUMBER of
+   further breaks, each after the ResendRequest has been serviced and any number of the retransmissions got
+   through (induction on the list of breaks).  Before the D12 repair of _process_resend (journal rewind /
    truncation while servicing a ResendRequest) the full statement was FALSE (two breaks with a resend reply in
    flight lost messages for good); the former witnesses are now positive computed Examples
    (C07_double_break_recovers, C07_gap_fill_lost_recovers).  General interleavings - both directions in
@@ -60,6 +62,44 @@ Theorem C07_single_break_B_to_A : forall (n k fuel : nat),
   /\ holds s = true.
 Proof. exact single_break_m_nk. Qed.
 Print Assumptions C07_single_break_B_to_A.
+
+(* ANY NUMBER OF BREAKS of the following kind.  A sends n = d + k + 1 messages, d reach B, the link breaks with
+   the last k + 1 in flight.  Then, for every j in the list js (one more break per element): reconnect + Logon,
+   B answers (Logon reply + ResendRequest), A takes the reply and services the request (retransmissions + gap
+   fill), j of the retransmissions still missing reach B, and the link breaks AGAIN with the remaining
+   retransmissions and the gap fill in flight (`fits`: j never exceeds what is still missing).  After the last
+   break: reconnect + Logon + drain.  Conclusion as in C07_single_break: nothing lost, duplicated or reordered,
+   both ACTIVE, numbers agree.  Unbounded in d, k, the number of breaks and every j (induction on js; the model
+   is the code WITH the D12 repair - before it this family lost messages from the second break on).
+   Breaks at other moments of the recovery, and with traffic of B in flight, are explored only. *)
+Theorem C07_repeated_breaks : forall (d k : nat) (js : list nat) (fuel : nat),
+  fits (S k) js ->
+  Z.of_nat (d + S k) + 5 + 2 * Z.of_nat (length js) <= 9223372036854775807 -> (S k + 4 <= fuel)%nat ->
+  let one_more_break (j : nat) :=
+    [ADeliver SB; ADeliver SA; ADeliver SA] ++ repeat (ADeliver SB) j ++ [ABreak; AReconnect] in
+  let schedule :=
+    ([AReconnect; ADeliver SB; ADeliver SA] ++ repeat (ASend SA) (d + S k) ++ repeat (ADeliver SB) d)
+    ++ [ABreak; AReconnect] ++ flat_map one_more_break js in
+  let s := drain fuel (run net0 schedule) in
+  quiescent s = true
+  /\ st (wa s) = ST_ACTIVE /\ st (wb s) = ST_ACTIVE
+  /\ nin (wa s) = nout (wb s) /\ nin (wb s) = nout (wa s)
+  /\ sa s = texts 1 (d + S k) /\ gb s = map Some (texts 1 (d + S k)) /\ sb s = [] /\ ga s = []
+  /\ holds s = true.
+Proof. exact repeated_breaks. Qed.
+Print Assumptions C07_repeated_breaks.
+
+(* `fits k js`: each j of js is at most what is still missing (k minus the earlier ones) *)
+Example C07_fits : fits 4 [1; 0; 2]%nat /\ ~ fits 2 [1; 2]%nat.
+Proof. cbn. split; [repeat split; auto with arith | intros [_ [H _]]; inversion H as [|? H1]; inversion H1]. Qed.
+Print Assumptions C07_fits.
+
+(* computed instance (non-vacuity): n = 5, four in flight, then three more breaks after 1, 0 and 2 retransmissions *)
+Example C07_repeated_breaks_instance :
+  let s := drain 20 (run net0 (sched_before 1 4 ++ [ABreak; AReconnect] ++ rounds [1; 0; 2]%nat)) in
+  holds s = true /\ gb s = map Some (texts 1 5) /\ nin (wb s) = 11 /\ nout (wa s) = 11 /\ nin (wa s) = 10 /\ nout (wb s) = 10.
+Proof. exact repeated_breaks_instance. Qed.
+Print Assumptions C07_repeated_breaks_instance.
 
 (* `texts 1 n` is the list of the payload texts "m1" .. "mn" *)
 Example C07_texts : texts 1 3 = [payload 1; payload 2; payload 3] /\ payload 17 = [109; 49; 55]%N.
